@@ -180,17 +180,26 @@ def property_checks(inp):
 def gen_input(rng):
     n = rng.randint(1, 30)
     ns = rng.randint(2, 16); npr = rng.nprng()
-    kind = rng.choice(["random", "disc", "off"])
+    kind = rng.choice(["random", "disc", "off", "rect"])
     if kind == "random":
         mask = (npr.random((ns, ns)) < 0.6).astype(float)
+    elif kind == "rect":
+        mask = (npr.random((ns, rng.randint(2, 24))) < 0.6).astype(float)      # non-square masks: x and y spacings differ
     elif kind == "disc":
         mask = pupil.circle(ns / 2.0, ns)
     else:
         mask = pupil.circle(ns / 3.0, ns, (rng.randint(-2, 2), rng.randint(-2, 2)))
     k = rng.randint(1, 6)
-    return {"n": n, "r": lattice(rng, 0, n) if rng.random() < 0.5 else rng.uniform(0, n),
-            "c": [lattice(rng, -n / 2, n / 2), lattice(rng, -n / 2, n / 2)] if rng.random() < 0.5 else [rng.uniform(-n / 2, n / 2), rng.uniform(-n / 2, n / 2)],
-            "mid": rng.random() < 0.6, "dr": rng.choice([0.0, 0.25, rng.uniform(0, 3)]), "shift": [rng.randint(-3, 3), rng.randint(-3, 3)],
+    mid = rng.random() < 0.6
+    r = lattice(rng, 0, n) if rng.random() < 0.5 else rng.uniform(0, n)
+    c = [lattice(rng, -n / 2, n / 2), lattice(rng, -n / 2, n / 2)] if rng.random() < 0.5 else [rng.uniform(-n / 2, n / 2), rng.uniform(-n / 2, n / 2)]
+    if rng.random() < 0.3:
+        # a radius a hair below / above the distance of some pixel centre (relative gap 2^-14 .. 2^-40: far outside rounding,
+        # far inside any "close enough" tolerance): the mask must still be the exact indicator
+        px, py = rng.randint(0, n - 1) + 0.5 - (n / 2.0 if mid else 0.0), rng.randint(0, n - 1) + 0.5 - (n / 2.0 if mid else 0.0)
+        dist = math.hypot(px - c[0], py - c[1])
+        r = dist * (1 + rng.choice([-1, 1]) * 2.0 ** -rng.randint(14, 40))
+    return {"n": n, "r": r, "c": c, "mid": mid, "dr": rng.choice([0.0, 0.25, rng.uniform(0, 3)]), "shift": [rng.randint(-3, 3), rng.randint(-3, 3)],
             "R": rng.uniform(1, 60), "mask": mask.tolist(), "S": rng.randint(1, 8), "thr": [rng.uniform(0, 1), rng.uniform(0, 1)],
             "m2": (npr.random((k, k)) < 0.6).astype(float).tolist()}
 
